@@ -58,16 +58,31 @@ def wrap_messages(payload: bytes):
     return out
 
 
-def judge(state, key, history_genuine_same):
-    """Execute one transition state --key--> on the real AutoDecoder; returns (violations, escapes, next_state)."""
+def replay_history(hist):
+    """A fresh AutoDecoder driven through the public API by the payloads named in hist."""
+    from han import autodecoder
+
+    gen, ev, makers = pool()
+    a = autodecoder.AutoDecoder()
+    for k in hist:
+        a.decode_message_payload(ev[k][0])
+    return a
+
+
+def judge(hist, key, history_genuine_same=True):
+    """Execute one transition (state reached by hist) --key--> on the real AutoDecoder.
+    Returns (violations, escapes, name of remembered decoder afterwards, decoded?)."""
     gen, ev, makers = pool()
     payload, own = ev[key]
     names = list(autox.DECODER_NAMES)
     viol, esc = [], []
+    if isinstance(hist, str) or hist is None:  # replay files of the first version name the state by decoder
+        hist = () if hist is None else (next(k for k, (m, o) in sorted(gen.items()) if o == hist and k.startswith("fix.")),)
     try:
-        a = autox.make_decoder(state, makers)
+        a = replay_history(hist)
+        state = a.previous_success_decoder
     except Exception as ex:  # noqa: BLE001
-        return [f"state {state} unreachable: {type(ex).__name__}: {ex}"], [], state, False
+        return [f"history {list(hist)} cannot be replayed: {type(ex).__name__}: {ex}"], [], None, False
     ind = individual(payload)
     acc = [i for i, x in enumerate(ind) if x[0] == "ok"]
     k, res, _ = budget.run_budget(lambda: a.decode_message_payload(payload), budget.budget_for(len(payload)) * 8)
@@ -82,6 +97,7 @@ def judge(state, key, history_genuine_same):
         return viol, esc, state, False
     after = a.previous_success_decoder
     _last_result["res"] = res
+    _last_result["digest"] = digest(a)
     if res is None:
         if acc:
             viol.append(f"result None although {[names[i] for i in acc]} accept the payload")
@@ -99,7 +115,7 @@ def judge(state, key, history_genuine_same):
                 viol.append(f"genuine {own} message decoded by {after} (state before: {state})")
     # decode_message on wrappers == decode_message_payload on the payload, including the state afterwards
     for wname, msg in wrap_messages(payload):
-        b = autox.make_decoder(state, makers)
+        b = replay_history(hist)
         k2, r2, _ = budget.run_budget(lambda: b.decode_message(msg), budget.budget_for(len(payload)) * 8)
         if k2 != "ok":
             esc.append(f"decode_message({wname}) escaped: {k2}")
@@ -111,7 +127,7 @@ def judge(state, key, history_genuine_same):
 
 
 def replay(case: dict) -> list[str]:
-    v, esc, _, _ = judge(case["state"], case["event"], True)
+    v, esc, _, _ = judge(tuple(case["history"]) if "history" in case and case.get("state") == "history" else case.get("state"), case["event"], True)
     return v
 
 
@@ -129,7 +145,7 @@ def _work_seq(task) -> core.Part:
     for rest in itertools.product(sub, repeat=2):
         seq = (first,) + rest
         a = autodecoder.AutoDecoder()
-        state = None
+        state = digest(a)
         for i, key in enumerate(seq):
             payload = ev[key][0]
             k, res, _ = budget.run_budget(lambda: a.decode_message_payload(payload), budget.budget_for(len(payload)) * 8)
@@ -141,9 +157,9 @@ def _work_seq(task) -> core.Part:
             if k != "ok":
                 p.add("escapes_reported_under_C15")
                 break
-            if a.previous_success_decoder != after_w or res != res_w:
-                p.viol("history", f"history:{seq[:i + 1]}", f"history {list(seq[:i + 1])}: step {i} gives {res!r:.80} / state {a.previous_success_decoder}, "
-                       f"but the same payload from state {state} alone gives {res_w!r:.80} / state {after_w}", {"state": None, "event": key, "history": list(seq[:i + 1])}, size=i + 1)
+            if digest(a) != after_w or res != res_w:
+                p.viol("history", f"history:{seq[:i + 1]}", f"history {list(seq[:i + 1])}: step {i} gives {res!r:.80} / remembered {a.previous_success_decoder}, "
+                       f"but the same payload from the same snapshot state in the exploration gave {res_w!r:.80}", {"state": "history", "event": key, "history": list(seq[:i])}, size=i + 1)
                 break
             state = after_w
         p.add("sequences")
@@ -151,19 +167,23 @@ def _work_seq(task) -> core.Part:
 
 
 def _work(task) -> core.Part:
-    state, keys = task
+    node, hist, keys = task
     p = core.Part()
+    state = replay_history(hist).previous_success_decoder if hist else None
     for key in keys:
-        v, esc, after, decoded = judge(state, key, True)
+        _last_result.clear()
+        v, esc, after, decoded = judge(hist, key, True)
         p.add("transitions")
         if decoded:
             p.add("decoded")
         p.out(f"{state}->{after}")
-        p.s.append((state, key, after, _last_result.get("res") if not esc else "__escape__"))
+        escaped = bool(esc) and "digest" not in _last_result
+        p.s.append((node, key, _last_result.get("digest"), "__escape__" if escaped else _last_result.get("res"), after))
         if esc:
             p.add("escapes_reported_under_C15", len(esc))
         for m in v:
-            p.viol("autodecoder", f"autodecoder:{state}:{key}:{m[:60]}", f"state {state}, payload {key}: {m}", {"state": state, "event": key}, size=1)
+            p.viol("autodecoder", f"autodecoder:{state}:{list(hist)[-3:]}:{key}:{m[:60]}", f"after history {list(hist)} (remembered decoder {state}), payload {key}: {m}",
+                   {"state": "history", "history": list(hist), "event": key}, size=len(hist) + 1)
     return p
 
 
@@ -173,28 +193,43 @@ def main(run: core.Run) -> int:
     global THOROUGH_POOL
     THOROUGH_POOL = not run.quick
     gen, ev, makers = pool()
-    keys = sorted(ev)
-    seen = {None}
-    frontier = [None]
+    keys = sorted(ev, key=lambda k: (len(ev[k][0]), k))
+    from han import autodecoder
+    root = digest(autodecoder.AutoDecoder())
+    seen = {root: ()}
+    frontier = [root]
     parts = []
     edges = 0
     table = {}
+    names_seen = {None}
+    cap_levels, cap_nodes = (24, 300) if run.quick else (40, 600)
+    level = 0
+    closed = True
     while frontier:
-        tasks = [(st, keys[i::8]) for st in frontier for i in range(8)]
+        level += 1
+        if level > cap_levels or len(seen) > cap_nodes:
+            closed = False
+            break
+        tasks = [(nd, seen[nd], keys[i::8]) for nd in frontier for i in range(8)]
         res = par.pmap(_work, tasks, seed=run.seed)
         nxt = []
         for p in res:
             for rec in p.s:
-                if isinstance(rec, tuple) and len(rec) == 4:
+                if isinstance(rec, tuple) and len(rec) == 5:
+                    nd, key, dg_after, r, after_name = rec
                     edges += 1
-                    if rec[3] != "__escape__":
-                        table[(rec[0], rec[1])] = (rec[2], rec[3])
-                    if rec[2] not in seen:
-                        seen.add(rec[2])
-                        nxt.append(rec[2])
+                    names_seen.add(after_name)
+                    if r != "__escape__" and dg_after is not None:
+                        table[(nd, key)] = (dg_after, r)
+                        if dg_after not in seen:
+                            seen[dg_after] = seen[nd] + (key,)
+                            nxt.append(dg_after)
             p.s = []
             parts.append(p)
         frontier = nxt
+    if not closed:
+        run.exhaustive = False
+        run.notes.append(f"the AutoDecoder's snapshot state space did not close within {cap_levels} BFS levels / {cap_nodes} states (it closes after 2 levels with 8 states on the pinned tree): explored to that depth only")
     run.merge(parts)
     # histories of length <= 3, exhaustively, over a sub-pool: one genuine message per decoder in both sources, P1, junk
     sub = []
@@ -209,7 +244,7 @@ def main(run: core.Run) -> int:
     nontriv = tot.c.get("decoded", 0)
     tot.sample({"state": None, "event": "ref.kaifa.list1_1320W.body", "payload": "02010600000528", "expected": "decoded by Kaifa_notification_body"})
     tot.sample({"state": "Kamstrup_frame", "event": "fix.kaifa.se_list.frame", "expected": "Kaifa_frame result, previous_success_decoder = Kaifa_frame"})
-    run.bounds = {"pool": len(keys), "genuine": len(gen), "states_reached": sorted(str(s) for s in seen), "fixpoint": True}
+    run.bounds = {"pool": len(keys), "genuine": len(gen), "remembered_decoders_reached": sorted(str(s) for s in names_seen), "fixpoint": closed, "bfs_levels": level}
     run.assumptions = ["the AutoDecoder's future depends only on its snapshotted attributes, so the BFS over remembered-decoder states closes and covers histories of any length over the pool",
                        "accept/reject of the individual decoders is observed by calling the seven public functions directly"]
     run.bounds["histories"] = f"all {len(sub)}^3 sequences of length 3 (and their prefixes) over a {len(sub)}-event sub-pool, replayed on one live object"
